@@ -6,7 +6,7 @@ From Centro Require Import Model.MaskFlow.
 Import ListNotations.
 
 (* library symbols (index: name) *)
-(* 0: all; 1: not; 2: copy; 3: needs_ranking; 4: take; 5: rank_order.translation; 6: gather; 7: _filter.median_filter; 8: scatter; 9: rank_order.ranks; 10: ascontiguousarray; 11: any; 12: has_greater_structure_neighbour; 13: one_pixel_per_component(edt,label,rank_order,maximum_position); 14: or; 15: lt; 16: min; 17: gt; 18: max; 19: index; 20: unpack1; 21: rank_order; 22: unpack0; 23: cropiradius:-iradius,iradius:-iradius; 24: grey_erosion; 25: setsliceiradius:-iradius,iradius:-iradius; 26: grey_dilation; 27: sub; 28: max_axis0; 29: min_axis0; 30: sqrt; 31: add; 32: pow; 33: abs; 34: convolve3x3; 35: mult; 36: shift(-1,+1); 37: shift(+1,+1); 38: eq; 39: label; 40: gte; 41: function; 42: lte; 43: shift(+1,-1); 44: logical_or; 45: div; 46: shift(+1,+0); 47: shift(-1,+0); 48: shift(+0,-1); 49: shift(+0,+1); 50: shift(-1,-1); 51: setslice1:; 52: zeros; 53: fix; 54: sum; 55: arange; 56: convolve; 57: gaussian_filter; 58: kernel; 59: array; 60: count_nonzero; 61: opaque_expression; 62: lstsq; 63: transpose; 64: loop:m; 65: cropymin+y:ymax+y,xmin+x:xmax+x; 66: loop:a; 67: len; 68: unique; 69: astype; 70: maximum; 71: convex_hull_transform; 72: floor; 73: minimum; 74: cumsum; 75: indexed_store; 76: shape_of; 77: convex_hull_ijv; 78: column_stack; 79: loop:first_i; 80: ones; 81: slice; 82: loop:first_j; 83: loop:first_levels; 84: unpack2; 85: get_line_pts; 86: crop1:; 87: lexsort; 88: unpack3; 89: hstack; 90: bitor; 91: noteq; 92: crop:-1; 93: bitand; 94: neg; 95: table_lookup; 96: index_set; 97: loop:index_i; 98: prepare_for_index_lookup; 99: loop:index_j; 100: skeletonize_loop; 101: distance_transform_edt *)
+(* 0: all; 1: not; 2: copy; 3: needs_ranking; 4: take; 5: rank_order.translation; 6: gather; 7: _filter.median_filter; 8: scatter; 9: rank_order.ranks; 10: ascontiguousarray; 11: any; 12: has_greater_structure_neighbour; 13: one_pixel_per_component(edt,label,rank_order,maximum_position); 14: or; 15: lt; 16: min; 17: gt; 18: max; 19: index; 20: unpack1; 21: rank_order; 22: unpack0; 23: cropiradius:-iradius,iradius:-iradius; 24: grey_erosion; 25: setsliceiradius:-iradius,iradius:-iradius; 26: grey_dilation; 27: sub; 28: max_axis0; 29: min_axis0; 30: sqrt; 31: add; 32: pow; 33: abs; 34: convolve3x3; 35: mult; 36: shift(-1,+1); 37: shift(+1,+1); 38: eq; 39: label; 40: gte; 41: div; 42: function; 43: lte; 44: shift(+1,-1); 45: logical_or; 46: shift(+1,+0); 47: shift(-1,+0); 48: shift(+0,-1); 49: shift(+0,+1); 50: shift(-1,-1); 51: setslice1:; 52: zeros; 53: fix; 54: sum; 55: arange; 56: convolve; 57: gaussian_filter; 58: kernel; 59: array; 60: count_nonzero; 61: opaque_expression; 62: lstsq; 63: transpose; 64: loop:m; 65: cropymin+y:ymax+y,xmin+x:xmax+x; 66: loop:a; 67: len; 68: unique; 69: astype; 70: maximum; 71: convex_hull_transform; 72: floor; 73: minimum; 74: cumsum; 75: indexed_store; 76: shape_of; 77: convex_hull_ijv; 78: column_stack; 79: loop:first_i; 80: ones; 81: slice; 82: loop:first_j; 83: loop:first_levels; 84: unpack2; 85: get_line_pts; 86: crop1:; 87: lexsort; 88: unpack3; 89: hstack; 90: bitor; 91: noteq; 92: crop:-1; 93: bitand; 94: neg; 95: table_lookup; 96: index_set; 97: loop:index_i; 98: prepare_for_index_lookup; 99: loop:index_j; 100: skeletonize_loop; 101: distance_transform_edt *)
 (* constants (index: name) *)
 (* 0: zeros_uint8; 1: zeros(..); 2: ones(..); 3: 1; 4: cmp; 5: $clip; 6: unpacked; 7: expr; 8: True; 9: is; 10: zeros; 11: permutation(..) *)
 Definition sym_all : nat := 0.
@@ -49,10 +49,10 @@ Definition sym_shift_1_1 : nat := 36.
 Definition sym_eq : nat := 38.
 Definition sym_label : nat := 39.
 Definition sym_gte : nat := 40.
-Definition sym_function : nat := 41.
-Definition sym_lte : nat := 42.
-Definition sym_logical_or : nat := 44.
-Definition sym_div : nat := 45.
+Definition sym_div : nat := 41.
+Definition sym_function : nat := 42.
+Definition sym_lte : nat := 43.
+Definition sym_logical_or : nat := 45.
 Definition sym_shift_1_0 : nat := 46.
 Definition sym_shift_0_1 : nat := 48.
 Definition sym_setslice1 : nat := 51.
@@ -233,54 +233,54 @@ Definition prog_roberts : prog :=
 Example roberts_ok : accepts prog_roberts = true.
 Proof. vm_compute. reflexivity. Qed.
 
-(* canny (161 DAG nodes, 60977 as a tree):  Select (Select (Pw gte [Pw sqrt [Pw add [Pw mult [Loc 1 convolve3x3 (Glob function [Img]); Loc 1 convolve3x3 (Glob function [Img])]; Pw mult [Loc 1 convolve3x3 (Glob function [Img]); Loc 1 convolve3x3 (Glob function [Img])]]]]) (Select (Glob scatter [Select (Pw lte [Pw add [Pw mult [Glob gather [Select (Loc 1 shift(+1,-1) (Pw sqrt [Pw add [Pw mult [Loc 1 convolve3x3 (Glob function [Img]); Loc 1 convolve3x3 (Glob function [Img])]; Pw mult [Loc 1 convolve3x3 (Glob function [Img]); Loc 1 convolve3x3 (Glob function [Img])]]])) (Select (Pw logical_or [Select (Select (Pw gte [Pw abs [Loc 1 convolve3 ... *)
+(* canny (165 DAG nodes, 138005 as a tree):  Select (Select (Pw gte [Pw sqrt [Pw add [Pw mult [Loc 1 convolve3x3 (Pw div [Glob function [Select (Img) (MaskE) (Const<zeros(..)>)]; Pw add [Glob function [MaskE]]]); Loc 1 convolve3x3 (Pw div [Glob function [Select (Img) (MaskE) (Const<zeros(..)>)]; Pw add [Glob function [MaskE]]])]; Pw mult [Loc 1 convolve3x3 (Pw div [Glob function [Select (Img) (MaskE) (Const<zeros(..)>)]; Pw add [Glob function [MaskE]]]); Loc 1 convolve3x3 (Pw div [Glob function [Select (Img) (MaskE) (Const<zeros(..)>)]; Pw add [Glob function [MaskE]]])]]]]) (Select (Glob scatter [Select (Pw lte [Pw add [Pw mult [Glob gat ... *)
 Definition prog_canny : prog :=
-  ([(Loc 1 34 (Glob 41 [Img]));
+  ([(Loc 1 34 (Pw 41 [(Glob 42 [(Select Img MaskE (Const 1))]); (Pw 31 [(Glob 42 [MaskE])])]));
     (Pw 35 [(Ref 0); (Ref 0)]);
     (Pw 30 [(Pw 31 [(Ref 1); (Ref 1)])]);
-    (Loc 1 43 (Ref 2));
+    (Loc 1 44 (Ref 2));
     (Pw 33 [(Ref 0)]);
     (Pw 40 [(Ref 4); (Ref 4)]);
     (Pw 40 [(Ref 0)]);
     (Select (Ref 5) (Ref 6) FalseC);
-    (Pw 42 [(Ref 0)]);
+    (Pw 43 [(Ref 0)]);
     (Select (Ref 5) (Ref 8) FalseC);
     (Select (Pw 17 [(Ref 2)]) (Erode 1 MaskE) FalseC);
-    (Select (Pw 44 [(Select (Ref 7) (Ref 8) FalseC); (Select (Ref 9) (Ref 6) FalseC)]) (Ref 10) FalseC);
+    (Select (Pw 45 [(Select (Ref 7) (Ref 8) FalseC); (Select (Ref 9) (Ref 6) FalseC)]) (Ref 10) FalseC);
     (Glob 6 [(Select (Ref 4) (Ref 11) FalseC); (Ref 11)]);
-    (Pw 45 [(Ref 12); (Ref 12)]);
+    (Pw 41 [(Ref 12); (Ref 12)]);
     (Loc 1 46 (Ref 2));
     (Pw 27 [(Ref 13)]);
     (Glob 6 [(Select (Ref 2) (Ref 11) FalseC); (Ref 11)]);
     (Loc 1 36 (Ref 2));
     (Loc 1 47 (Ref 2));
-    (Pw 42 [(Ref 4); (Ref 4)]);
+    (Pw 43 [(Ref 4); (Ref 4)]);
     (Select (Ref 19) (Ref 6) FalseC);
     (Select (Ref 19) (Ref 8) FalseC);
-    (Select (Pw 44 [(Select (Ref 20) (Ref 8) FalseC); (Select (Ref 21) (Ref 6) FalseC)]) (Ref 10) FalseC);
+    (Select (Pw 45 [(Select (Ref 20) (Ref 8) FalseC); (Select (Ref 21) (Ref 6) FalseC)]) (Ref 10) FalseC);
     (Glob 6 [(Select (Ref 4) (Ref 22) FalseC); (Ref 22)]);
-    (Pw 45 [(Ref 23); (Ref 23)]);
+    (Pw 41 [(Ref 23); (Ref 23)]);
     (Loc 1 48 (Ref 2));
     (Pw 27 [(Ref 24)]);
     (Glob 6 [(Select (Ref 2) (Ref 22) FalseC); (Ref 22)]);
     (Loc 1 49 (Ref 2));
     (Loc 1 50 (Ref 2));
-    (Select (Pw 44 [(Select (Ref 20) (Ref 6) FalseC); (Select (Ref 21) (Ref 8) FalseC)]) (Ref 10) FalseC);
+    (Select (Pw 45 [(Select (Ref 20) (Ref 6) FalseC); (Select (Ref 21) (Ref 8) FalseC)]) (Ref 10) FalseC);
     (Glob 6 [(Select (Ref 4) (Ref 30) FalseC); (Ref 30)]);
-    (Pw 45 [(Ref 31); (Ref 31)]);
+    (Pw 41 [(Ref 31); (Ref 31)]);
     (Pw 27 [(Ref 32)]);
     (Glob 6 [(Select (Ref 2) (Ref 30) FalseC); (Ref 30)]);
     (Loc 1 37 (Ref 2));
-    (Select (Pw 44 [(Select (Ref 7) (Ref 6) FalseC); (Select (Ref 9) (Ref 8) FalseC)]) (Ref 10) FalseC);
+    (Select (Pw 45 [(Select (Ref 7) (Ref 6) FalseC); (Select (Ref 9) (Ref 8) FalseC)]) (Ref 10) FalseC);
     (Glob 6 [(Select (Ref 4) (Ref 36) FalseC); (Ref 36)]);
-    (Pw 45 [(Ref 37); (Ref 37)]);
+    (Pw 41 [(Ref 37); (Ref 37)]);
     (Pw 27 [(Ref 38)]);
     (Glob 6 [(Select (Ref 2) (Ref 36) FalseC); (Ref 36)]);
-    (Select (Pw 40 [(Ref 2)]) (Select (Glob 8 [(Select (Pw 42 [(Pw 31 [(Pw 35 [(Glob 6 [(Select (Ref 3) (Ref 11) FalseC); (Ref 11)]); (Ref 13)]); (Pw 35 [(Glob 6 [(Select (Ref 14) (Ref 11) FalseC); (Ref 11)]); (Ref 15)])]); (Ref 16)]) (Pw 42 [(Pw 31 [(Pw 35 [(Glob 6 [(Select (Ref 17) (Ref 11) FalseC); (Ref 11)]); (Ref 13)]); (Pw 35 [(Glob 6 [(Select (Ref 18) (Ref 11) FalseC); (Ref 11)]); (Ref 15)])]); (Ref 16)]) FalseC); (Ref 11)]) (Ref 11) (Select (Glob 8 [(Select (Pw 42 [(Pw 31 [(Pw 35 [(Glob 6 [(Select (Ref 3) (Ref 22) FalseC); (Ref 22)]); (Ref 24)]); (Pw 35 [(Glob 6 [(Select (Ref 25) (Ref 22) FalseC); (Ref 22)]); (Ref 26)])]); (Ref 27)]) (Pw 42 [(Pw 31 [(Pw 35 [(Glob 6 [(Select (Ref 17) (Ref 22) FalseC); (Ref 22)]); (Ref 24)]); (Pw 35 [(Glob 6 [(Select (Ref 28) (Ref 22) FalseC); (Ref 22)]); (Ref 26)])]); (Ref 27)]) FalseC); (Ref 22)]) (Ref 22) (Select (Glob 8 [(Select (Pw 42 [(Pw 31 [(Pw 35 [(Glob 6 [(Select (Ref 29) (Ref 30) FalseC); (Ref 30)]); (Ref 32)]); (Pw 35 [(Glob 6 [(Select (Ref 25) (Ref 30) FalseC); (Ref 30)]); (Ref 33)])]); (Ref 34)]) (Pw 42 [(Pw 31 [(Pw 35 [(Glob 6 [(Select (Ref 35) (Ref 30) FalseC); (Ref 30)]); (Ref 32)]); (Pw 35 [(Glob 6 [(Select (Ref 28) (Ref 30) FalseC); (Ref 30)]); (Ref 33)])]); (Ref 34)]) FalseC); (Ref 30)]) (Ref 30) (Select (Glob 8 [(Select (Pw 42 [(Pw 31 [(Pw 35 [(Glob 6 [(Select (Ref 29) (Ref 36) FalseC); (Ref 36)]); (Ref 38)]); (Pw 35 [(Glob 6 [(Select (Ref 18) (Ref 36) FalseC); (Ref 36)]); (Ref 39)])]); (Ref 40)]) (Pw 42 [(Pw 31 [(Pw 35 [(Glob 6 [(Select (Ref 35) (Ref 36) FalseC); (Ref 36)]); (Ref 38)]); (Pw 35 [(Glob 6 [(Select (Ref 14) (Ref 36) FalseC); (Ref 36)]); (Ref 39)])]); (Ref 40)]) FalseC); (Ref 36)]) (Ref 36) (Const 1))))) FalseC);
+    (Select (Pw 40 [(Ref 2)]) (Select (Glob 8 [(Select (Pw 43 [(Pw 31 [(Pw 35 [(Glob 6 [(Select (Ref 3) (Ref 11) FalseC); (Ref 11)]); (Ref 13)]); (Pw 35 [(Glob 6 [(Select (Ref 14) (Ref 11) FalseC); (Ref 11)]); (Ref 15)])]); (Ref 16)]) (Pw 43 [(Pw 31 [(Pw 35 [(Glob 6 [(Select (Ref 17) (Ref 11) FalseC); (Ref 11)]); (Ref 13)]); (Pw 35 [(Glob 6 [(Select (Ref 18) (Ref 11) FalseC); (Ref 11)]); (Ref 15)])]); (Ref 16)]) FalseC); (Ref 11)]) (Ref 11) (Select (Glob 8 [(Select (Pw 43 [(Pw 31 [(Pw 35 [(Glob 6 [(Select (Ref 3) (Ref 22) FalseC); (Ref 22)]); (Ref 24)]); (Pw 35 [(Glob 6 [(Select (Ref 25) (Ref 22) FalseC); (Ref 22)]); (Ref 26)])]); (Ref 27)]) (Pw 43 [(Pw 31 [(Pw 35 [(Glob 6 [(Select (Ref 17) (Ref 22) FalseC); (Ref 22)]); (Ref 24)]); (Pw 35 [(Glob 6 [(Select (Ref 28) (Ref 22) FalseC); (Ref 22)]); (Ref 26)])]); (Ref 27)]) FalseC); (Ref 22)]) (Ref 22) (Select (Glob 8 [(Select (Pw 43 [(Pw 31 [(Pw 35 [(Glob 6 [(Select (Ref 29) (Ref 30) FalseC); (Ref 30)]); (Ref 32)]); (Pw 35 [(Glob 6 [(Select (Ref 25) (Ref 30) FalseC); (Ref 30)]); (Ref 33)])]); (Ref 34)]) (Pw 43 [(Pw 31 [(Pw 35 [(Glob 6 [(Select (Ref 35) (Ref 30) FalseC); (Ref 30)]); (Ref 32)]); (Pw 35 [(Glob 6 [(Select (Ref 28) (Ref 30) FalseC); (Ref 30)]); (Ref 33)])]); (Ref 34)]) FalseC); (Ref 30)]) (Ref 30) (Select (Glob 8 [(Select (Pw 43 [(Pw 31 [(Pw 35 [(Glob 6 [(Select (Ref 29) (Ref 36) FalseC); (Ref 36)]); (Ref 38)]); (Pw 35 [(Glob 6 [(Select (Ref 18) (Ref 36) FalseC); (Ref 36)]); (Ref 39)])]); (Ref 40)]) (Pw 43 [(Pw 31 [(Pw 35 [(Glob 6 [(Select (Ref 35) (Ref 36) FalseC); (Ref 36)]); (Ref 38)]); (Pw 35 [(Glob 6 [(Select (Ref 14) (Ref 36) FalseC); (Ref 36)]); (Ref 39)])]); (Ref 40)]) FalseC); (Ref 36)]) (Ref 36) (Const 1))))) FalseC);
     (Glob 39 [(Ref 41)]);
     (Glob 20 [(Ref 42)]);
     (Glob 22 [(Ref 42)])],
-   (Select (Select (Pw 40 [(Ref 2)]) (Select (Glob 8 [(Select (Pw 42 [(Pw 31 [(Pw 35 [(Glob 6 [(Select (Ref 3) (Ref 11) FalseC); (Ref 11)]); (Ref 13)]); (Pw 35 [(Glob 6 [(Select (Ref 14) (Ref 11) FalseC); (Ref 11)]); (Ref 15)])]); (Ref 16)]) (Pw 42 [(Pw 31 [(Pw 35 [(Glob 6 [(Select (Ref 17) (Ref 11) FalseC); (Ref 11)]); (Ref 13)]); (Pw 35 [(Glob 6 [(Select (Ref 18) (Ref 11) FalseC); (Ref 11)]); (Ref 15)])]); (Ref 16)]) FalseC); (Ref 11)]) (Ref 11) (Select (Glob 8 [(Select (Pw 42 [(Pw 31 [(Pw 35 [(Glob 6 [(Select (Ref 3) (Ref 22) FalseC); (Ref 22)]); (Ref 24)]); (Pw 35 [(Glob 6 [(Select (Ref 25) (Ref 22) FalseC); (Ref 22)]); (Ref 26)])]); (Ref 27)]) (Pw 42 [(Pw 31 [(Pw 35 [(Glob 6 [(Select (Ref 17) (Ref 22) FalseC); (Ref 22)]); (Ref 24)]); (Pw 35 [(Glob 6 [(Select (Ref 28) (Ref 22) FalseC); (Ref 22)]); (Ref 26)])]); (Ref 27)]) FalseC); (Ref 22)]) (Ref 22) (Select (Glob 8 [(Select (Pw 42 [(Pw 31 [(Pw 35 [(Glob 6 [(Select (Ref 29) (Ref 30) FalseC); (Ref 30)]); (Ref 32)]); (Pw 35 [(Glob 6 [(Select (Ref 25) (Ref 30) FalseC); (Ref 30)]); (Ref 33)])]); (Ref 34)]) (Pw 42 [(Pw 31 [(Pw 35 [(Glob 6 [(Select (Ref 35) (Ref 30) FalseC); (Ref 30)]); (Ref 32)]); (Pw 35 [(Glob 6 [(Select (Ref 28) (Ref 30) FalseC); (Ref 30)]); (Ref 33)])]); (Ref 34)]) FalseC); (Ref 30)]) (Ref 30) (Select (Glob 8 [(Select (Pw 42 [(Pw 31 [(Pw 35 [(Glob 6 [(Select (Ref 29) (Ref 36) FalseC); (Ref 36)]); (Ref 38)]); (Pw 35 [(Glob 6 [(Select (Ref 18) (Ref 36) FalseC); (Ref 36)]); (Ref 39)])]); (Ref 40)]) (Pw 42 [(Pw 31 [(Pw 35 [(Glob 6 [(Select (Ref 35) (Ref 36) FalseC); (Ref 36)]); (Ref 38)]); (Pw 35 [(Glob 6 [(Select (Ref 14) (Ref 36) FalseC); (Ref 36)]); (Ref 39)])]); (Ref 40)]) FalseC); (Ref 36)]) (Ref 36) (Const 1))))) FalseC) (Pw 38 [(Ref 43)]) (Glob 19 [(Glob 51 [(Glob 52 [(Pw 31 [(Ref 43)])]); (Pw 17 [(Glob 53 [(Glob 54 [(Ref 41); (Ref 44); (Pw 31 [(Glob 55 [(Ref 43)])])])])])]); (Ref 44)]))).
+   (Select (Select (Pw 40 [(Ref 2)]) (Select (Glob 8 [(Select (Pw 43 [(Pw 31 [(Pw 35 [(Glob 6 [(Select (Ref 3) (Ref 11) FalseC); (Ref 11)]); (Ref 13)]); (Pw 35 [(Glob 6 [(Select (Ref 14) (Ref 11) FalseC); (Ref 11)]); (Ref 15)])]); (Ref 16)]) (Pw 43 [(Pw 31 [(Pw 35 [(Glob 6 [(Select (Ref 17) (Ref 11) FalseC); (Ref 11)]); (Ref 13)]); (Pw 35 [(Glob 6 [(Select (Ref 18) (Ref 11) FalseC); (Ref 11)]); (Ref 15)])]); (Ref 16)]) FalseC); (Ref 11)]) (Ref 11) (Select (Glob 8 [(Select (Pw 43 [(Pw 31 [(Pw 35 [(Glob 6 [(Select (Ref 3) (Ref 22) FalseC); (Ref 22)]); (Ref 24)]); (Pw 35 [(Glob 6 [(Select (Ref 25) (Ref 22) FalseC); (Ref 22)]); (Ref 26)])]); (Ref 27)]) (Pw 43 [(Pw 31 [(Pw 35 [(Glob 6 [(Select (Ref 17) (Ref 22) FalseC); (Ref 22)]); (Ref 24)]); (Pw 35 [(Glob 6 [(Select (Ref 28) (Ref 22) FalseC); (Ref 22)]); (Ref 26)])]); (Ref 27)]) FalseC); (Ref 22)]) (Ref 22) (Select (Glob 8 [(Select (Pw 43 [(Pw 31 [(Pw 35 [(Glob 6 [(Select (Ref 29) (Ref 30) FalseC); (Ref 30)]); (Ref 32)]); (Pw 35 [(Glob 6 [(Select (Ref 25) (Ref 30) FalseC); (Ref 30)]); (Ref 33)])]); (Ref 34)]) (Pw 43 [(Pw 31 [(Pw 35 [(Glob 6 [(Select (Ref 35) (Ref 30) FalseC); (Ref 30)]); (Ref 32)]); (Pw 35 [(Glob 6 [(Select (Ref 28) (Ref 30) FalseC); (Ref 30)]); (Ref 33)])]); (Ref 34)]) FalseC); (Ref 30)]) (Ref 30) (Select (Glob 8 [(Select (Pw 43 [(Pw 31 [(Pw 35 [(Glob 6 [(Select (Ref 29) (Ref 36) FalseC); (Ref 36)]); (Ref 38)]); (Pw 35 [(Glob 6 [(Select (Ref 18) (Ref 36) FalseC); (Ref 36)]); (Ref 39)])]); (Ref 40)]) (Pw 43 [(Pw 31 [(Pw 35 [(Glob 6 [(Select (Ref 35) (Ref 36) FalseC); (Ref 36)]); (Ref 38)]); (Pw 35 [(Glob 6 [(Select (Ref 14) (Ref 36) FalseC); (Ref 36)]); (Ref 39)])]); (Ref 40)]) FalseC); (Ref 36)]) (Ref 36) (Const 1))))) FalseC) (Pw 38 [(Ref 43)]) (Glob 19 [(Glob 51 [(Glob 52 [(Pw 31 [(Ref 43)])]); (Pw 17 [(Glob 53 [(Glob 54 [(Ref 41); (Ref 44); (Pw 31 [(Glob 55 [(Ref 43)])])])])])]); (Ref 44)]))).
 Example canny_ok : accepts prog_canny = true.
 Proof. vm_compute. reflexivity. Qed.
 
@@ -295,7 +295,7 @@ Proof. vm_compute. reflexivity. Qed.
 Definition prog_variance_transform : prog :=
   ([(Select (Pw 2 [Img]) MaskE FalseC);
     (Glob 57 [MaskE])],
-   (Pw 27 [(Pw 45 [(Glob 57 [(Pw 32 [(Ref 0)])]); (Ref 1)]); (Pw 32 [(Pw 45 [(Glob 57 [(Ref 0)]); (Ref 1)])])])).
+   (Pw 27 [(Pw 41 [(Glob 57 [(Pw 32 [(Ref 0)])]); (Ref 1)]); (Pw 32 [(Pw 41 [(Glob 57 [(Ref 0)]); (Ref 1)])])])).
 Example variance_transform_ok : accepts prog_variance_transform = true.
 Proof. vm_compute. reflexivity. Qed.
 
@@ -309,7 +309,7 @@ Proof. vm_compute. reflexivity. Qed.
 (* smooth_with_function_and_mask (8 DAG nodes, 9 as a tree):  Pw div [Glob function [Select (Img) (MaskE) (Const<zeros(..)>)]; Pw add [Glob function [MaskE]]] *)
 Definition prog_smooth_with_function_and_mask : prog :=
   ([],
-   (Pw 45 [(Glob 41 [(Select Img MaskE (Const 1))]); (Pw 31 [(Glob 41 [MaskE])])])).
+   (Pw 41 [(Glob 42 [(Select Img MaskE (Const 1))]); (Pw 31 [(Glob 42 [MaskE])])])).
 Example smooth_with_function_and_mask_ok : accepts prog_smooth_with_function_and_mask = true.
 Proof. vm_compute. reflexivity. Qed.
 
@@ -319,7 +319,7 @@ Definition prog_stretch : prog :=
     (Glob 6 [(Select (Ref 0) MaskE FalseC); MaskE]);
     (Glob 16 [(Ref 1)]);
     (Glob 18 [(Ref 1)])],
-   (Select (Ref 0) (Const 4) (Select (Ref 0) (Pw 38 [(Glob 60 [MaskE])]) (Select (Select (Glob 8 [(Ref 2); MaskE]) MaskE (Ref 0)) (Pw 38 [(Ref 2); (Ref 3)]) (Select (Glob 8 [(Pw 45 [(Pw 27 [(Ref 1); (Ref 2)]); (Pw 27 [(Ref 3); (Ref 2)])]); MaskE]) MaskE (Ref 0)))))).
+   (Select (Ref 0) (Const 4) (Select (Ref 0) (Pw 38 [(Glob 60 [MaskE])]) (Select (Select (Glob 8 [(Ref 2); MaskE]) MaskE (Ref 0)) (Pw 38 [(Ref 2); (Ref 3)]) (Select (Glob 8 [(Pw 41 [(Pw 27 [(Ref 1); (Ref 2)]); (Pw 27 [(Ref 3); (Ref 2)])]); MaskE]) MaskE (Ref 0)))))).
 Example stretch_ok : accepts prog_stretch = true.
 Proof. vm_compute. reflexivity. Qed.
 
@@ -340,7 +340,7 @@ Definition prog_circular_hough : prog :=
     (Glob 65 [MaskE]);
     (Glob 64 [(Ref 0); (Ref 1)]);
     (Glob 66 [(Ref 0); (Ref 1)])],
-   (Select (Pw 45 [(Ref 3); (Ref 2)]) (Pw 17 [(Ref 2)]) (Ref 3))).
+   (Select (Pw 41 [(Ref 3); (Ref 2)]) (Pw 17 [(Ref 2)]) (Ref 3))).
 Example circular_hough_ok : accepts prog_circular_hough = true.
 Proof. vm_compute. reflexivity. Qed.
 
@@ -350,8 +350,8 @@ Definition prog_convex_hull_transform : prog :=
     (Glob 16 [(Ref 0)]);
     (Glob 18 [(Ref 0)]);
     (Pw 27 [(Ref 2); (Ref 1)]);
-    (Pw 31 [(Ref 1); (Pw 45 [(Pw 35 [(Ref 3)])])]);
-    (Select (Pw 45 [(Pw 35 [(Pw 27 [Img; (Ref 1)])]); (Ref 3)]) MaskE FalseC);
+    (Pw 31 [(Ref 1); (Pw 41 [(Pw 35 [(Ref 3)])])]);
+    (Select (Pw 41 [(Pw 35 [(Pw 27 [Img; (Ref 1)])]); (Ref 3)]) MaskE FalseC);
     (Pw 69 [(Pw 70 [(Ref 5); (Glob 71 [(Pw 72 [(Ref 5)])])])]);
     (Glob 68 [(Ref 6)]);
     (Glob 55 [(Glob 67 [(Ref 7)])]);
